@@ -1,0 +1,19 @@
+//go:build verif
+
+// Contracts for govc (comment-only file; see /verif/DESIGN.md section 3).
+// Generated skeleton (tools/gen_zk_contracts.py): nil-safety of the verifier side for arbitrary decoded proofs.
+package zkenc
+
+//@ func (*Proof).IsValid
+//@   nopanic[C05]
+//@   inline
+//@   requires public.K != nil && pkok(public.Prover) && pedok(public.Aux)
+
+//@ func (*Proof).Verify
+//@   nopanic[C05]
+//@   requires group != nil && hash != nil && hash.h != nil && public.K != nil && pkok(public.Prover) && pedok(public.Aux)
+
+//@ func challenge
+//@   nopanic[C05]
+//@   inline
+//@   requires hash != nil && hash.h != nil && group != nil && public.K != nil && pkok(public.Prover) && pedok(public.Aux) && commitment != nil
